@@ -367,6 +367,8 @@ func (g *Gen) pool(t *Type, env map[int]*Type, depth int) []*Val {
 			if len(keys) > 2 {
 				k2 := keys[2]
 				out = append(out, mk(k0, v0, k1, v1, k2, v0), mk(k2, v0, k1, v1, k0, v0), mk(k2, v1, k0, v0, k1, v1), mk(k0, v0, k2, v1))
+				// same length, overlapping but different key sets, values under the shared key in both orders
+				out = append(out, mk(k1, v0, k2, v1), mk(k1, v1, k2, v0), mk(k0, v1, k2, v0), mk(k2, v0, k1, v1))
 			}
 		}
 		// a -0 key where +0 is in the pool (same key under ==, different bits)
